@@ -74,6 +74,7 @@ def focused_history(draw):
     new = st.sampled_from(names).flatmap(
         lambda n: st.tuples(st.just("new"), st.just(n), st.sampled_from(cmds.BY_NAME[n].tables()), small_args(cmds.BY_NAME[n])))
     op = st.one_of(new, new, new, st.tuples(st.just("decode"), idx), st.tuples(st.just("encode"), idx),
+                   st.tuples(st.just("encode_partial"), idx),
                    st.tuples(st.just("rebuild"), idx), st.tuples(st.just("drop"), idx))
     return draw(st.lists(op, min_size=3, max_size=24))
 
@@ -82,6 +83,7 @@ def op_strategy():
     idx = st.integers(0, 7)
     return st.one_of(new_op(), new_op(), st.tuples(st.just("decode"), idx), st.tuples(st.just("decode"), idx),
                      st.tuples(st.just("encode"), idx), st.tuples(st.just("rebuild"), idx), st.tuples(st.just("drop"), idx),
+                     st.tuples(st.just("encode_partial"), idx),
                      st.tuples(st.just("new_shared_buffer"), idx, st.sampled_from(["write10", "write12", "write16"]),
                                st.integers(0, 6), st.booleans()),
                      st.tuples(st.just("marshall_twice"), st.just("mode6"), paramgen.mode_data(False)),
@@ -214,6 +216,12 @@ class Pool(object):
                 expect(bytes(b) == ref["encode"], "mismatch:class_encode_depends_on_history", cls=type(c).__name__,
                        since=sorted(e["since"]), got=bytes(b), want=ref["encode"])
                 nt = len(e["since"] - {type(c).__name__}) >= 2
+            elif k == "encode_partial":
+                # the class-level encoder used for a partial assignment (no opcode key): whatever it returns, it
+                # leaves no trace in the class or in any command (seen by the operations that follow)
+                part = {kk: vv for kk, vv in ref["decode"].items() if kk != "opcode"}
+                with lib("marshall_cdb (partial assignment)"):
+                    type(c).marshall_cdb(part)
             elif k == "rebuild":
                 with lib("build_cdb"):
                     b = c.build_cdb(**ref["decode"])
